@@ -256,7 +256,11 @@ func NewClassifier(threshold float64) *Classifier {
 // It is an invariant of the classifier that calling Match(Normalize(in)) will
 // return the same results as Match(in).
 func (c *Classifier) Normalize(in []byte) []byte {
-	doc, err := tokenizeStream(bytes.NewReader(in), false, c.dict, true)
+	// Normalize has to remember every word it sees in order to write it out
+	// again. It uses a private dictionary for that: adding the words to the
+	// classifier's dictionary would change how later calls to Match see them.
+	dict := newDictionary()
+	doc, err := tokenizeStream(bytes.NewReader(in), false, dict, true)
 	if err != nil {
 		panic("should not be reachable, since bytes.NewReader().Read() should never fail")
 	}
@@ -267,12 +271,12 @@ func (c *Classifier) Normalize(in []byte) []byte {
 	case 0:
 		return nil
 	case 1:
-		buf.WriteString(c.dict.getWord(doc.Tokens[0].ID))
+		buf.WriteString(dict.getWord(doc.Tokens[0].ID))
 		return buf.Bytes()
 	}
 
 	prevLine := 1
-	buf.WriteString(c.dict.getWord(doc.Tokens[0].ID))
+	buf.WriteString(dict.getWord(doc.Tokens[0].ID))
 	for _, t := range doc.Tokens[1:] {
 		// Only write out an EOL token that incremented the line
 		if t.Line == prevLine+1 {
@@ -280,7 +284,7 @@ func (c *Classifier) Normalize(in []byte) []byte {
 		}
 
 		// Only write tokens that aren't EOL
-		txt := c.dict.getWord(t.ID)
+		txt := dict.getWord(t.ID)
 
 		if txt != eol {
 			// Only put a space between tokens if the previous token was on the same
